@@ -115,6 +115,12 @@ TRANSPARENT = [
     ('result::Result::<T, E>::unwrap_or', 0, 'unwrap_or'),
     ("self_referential::NodeRef::<'a, N>::as_ref", 0, 'as_ref'),
     ("slice::iter::Iter::<'a, T>::as_slice", 0, 'as_ref'),
+    ('ops::index::Index::index', 0, 'index'),
+    ('ops::index::IndexMut::index_mut', 0, 'index'),
+    ('ops::index::Index<I>>::index', 0, 'index'),
+    ('ops::index::IndexMut<I>>::index_mut', 0, 'index'),
+    ('cell::Cell::<T>::get', 0, 'cell'),
+    ('cell::Cell::<T>::replace', 0, 'cell'),
     ('option::Option::<T>::map', 0, 'map'),
     ('result::Result::<T, E>::map', 0, 'map'),
     ('::from_le_bytes', 0, 'from_le'),
